@@ -869,6 +869,31 @@ func c08RunCase(rt *rapid.T, rec *verifx.Recorder, env *c08Env, judge func(r *c0
 		if len(actions) > 30 {
 			actions = actions[:30]
 		}
+		if rapid.IntRange(0, 5).Draw(rt, "directedReadOnlySibling") == 0 {
+			// a directed opening: a write transaction W and a read-only transaction R begin at the same applied index; W
+			// reads a key; a conflicting plain write and one more entry are applied; R finishes while W is still open;
+			// then W writes and commits (its verdict must be the one every replica reaches). The random schedule follows.
+			k0 := rapid.IntRange(0, len(c08Keys)-1).Draw(rt, "dKey")
+			k1 := rapid.IntRange(0, len(c08Keys)-1).Draw(rt, "dOut")
+			endR := c08Action{Kind: 10, Slot: 1}
+			if rapid.Bool().Draw(rt, "dReadOnlyCommits") {
+				endR.Kind = 7
+			}
+			pre := []c08Action{
+				{Kind: 2, Slot: 0, Script: []c08Action{{Kind: 3, Key: k0}, {Kind: 4, Key: k1, Val: 1}}},
+				{Kind: 2, Slot: 1, RO: true, Script: []c08Action{{Kind: 3, Key: k0}}},
+				{Kind: 12, Slot: 0},
+				{Kind: 0, Key: k0, Val: 2},
+				{Kind: 9},
+				{Kind: 0, Key: (k0 + 1) % len(c08Keys), Val: 0},
+				{Kind: 9},
+				endR,
+				{Kind: 12, Slot: 0},
+				{Kind: 12, Slot: 0},
+				{Kind: 9},
+			}
+			actions = append(pre, actions...)
+		}
 		env.caseNo++
 		r := &c08Run{rt: rt, env: env, b: env.b, prefix: fmt.Sprintf("c%d/", env.caseNo), caughtUpOnly: caughtUpOnly}
 		b := env.b
